@@ -413,4 +413,387 @@ theorem typeof_agree (j : JS) : typeofJS j = Spec.typeofJS j := by
   | _ => rfl
 
 
+open Spec.Dev
+
+
+/-! ### JavaScript -> Go: `export` of JSON-like data -/
+
+theorem finishArr_ok (gs : GoVals) (g : GoVal) (h : finishArr gs = .ok g) : ∃ t, g = .slice t false gs := by
+  unfold finishArr at h
+  dsimp only at h
+  split at h
+  · exact ⟨_, (Res.ok.inj h).symm⟩
+  · split at h
+    · exact ⟨_, (Res.ok.inj h).symm⟩
+    · split at h
+      · exact ⟨_, (Res.ok.inj h).symm⟩
+      · cases h
+
+mutual
+/-- Export of hole-free JSON-like data is structurally equal to that data, at every nesting depth. -/
+theorem export_structural (E : Env) : (j : JS) → hasHole j = false → (g : GoVal) → exportV j = .ok g →
+    Spec.erase E g = Spec.treeOf E j
+  | .prim v, _, g, h => by
+    cases v <;> simp only [exportV, Res.ok.injEq] at h <;> subst h <;> rfl
+  | .f32 x, _, g, h => by simp only [exportV, Res.ok.injEq] at h; subst h; rfl
+  | .goObj g', _, g, h => by simp only [exportV, Res.ok.injEq] at h; subst h; simp [Spec.treeOf]
+  | .arr es, hh, g, h => by
+    simp only [exportV] at h
+    cases he : exportElems es with
+    | ok gs =>
+      rw [he] at h
+      obtain ⟨t, rfl⟩ := finishArr_ok gs g h
+      simp only [Spec.erase, Spec.treeOf]
+      rw [export_structural_elems E es (by simpa [hasHole] using hh) gs he]
+    | typeError => rw [he] at h; cases h
+    | panic => rw [he] at h; cases h
+    | err => rw [he] at h; cases h
+  | .obj ps, hh, g, h => by
+    simp only [exportV] at h
+    cases he : exportProps ps with
+    | ok kvs =>
+      rw [he] at h
+      simp only [Res.map, Res.ok.injEq] at h; subst h
+      simp only [Spec.erase, Spec.treeOf]
+      rw [export_structural_props E ps (by simpa [hasHole] using hh) kvs he]
+    | typeError => rw [he] at h; cases h
+    | panic => rw [he] at h; cases h
+    | err => rw [he] at h; cases h
+theorem export_structural_elems (E : Env) : (es : JSElems) → holeElems es = false → (gs : GoVals) →
+    exportElems es = .ok gs → Spec.eraseList E gs = Spec.treeOfElems E es
+  | .nil, _, gs, h => by simp only [exportElems, Res.ok.injEq] at h; subst h; rfl
+  | .hole r, hh, gs, h => by simp [holeElems] at hh
+  | .cons v r, hh, gs, h => by
+    simp only [holeElems, Bool.or_eq_false_iff] at hh
+    simp only [exportElems] at h
+    cases hv : exportV v with
+    | ok g =>
+      rw [hv] at h
+      cases hr : exportElems r with
+      | ok gs' =>
+        rw [hr] at h
+        simp only [Res.bind, Res.map, Res.ok.injEq] at h; subst h
+        simp only [Spec.eraseList, Spec.treeOfElems]
+        rw [export_structural E v hh.1 g hv, export_structural_elems E r hh.2 gs' hr]
+      | typeError => rw [hr] at h; cases h
+      | panic => rw [hr] at h; cases h
+      | err => rw [hr] at h; cases h
+    | typeError => rw [hv] at h; cases h
+    | panic => rw [hv] at h; cases h
+    | err => rw [hv] at h; cases h
+theorem export_structural_props (E : Env) : (ps : JSProps) → holeProps ps = false → (kvs : GoKVs) →
+    exportProps ps = .ok kvs → Spec.eraseKVs E kvs = Spec.treeOfProps E ps
+  | .nil, _, kvs, h => by simp only [exportProps, Res.ok.injEq] at h; subst h; rfl
+  | .cons k v r, hh, kvs, h => by
+    simp only [holeProps, Bool.or_eq_false_iff] at hh
+    simp only [exportProps] at h
+    by_cases hu : isUndef v = true
+    · simp only [hu, if_true] at h
+      simp only [Spec.treeOfProps, hu, if_true]
+      exact export_structural_props E r hh.2 kvs h
+    · simp only [hu, if_false, Bool.false_eq_true] at h
+      simp only [Spec.treeOfProps, hu, if_false, Bool.false_eq_true]
+      cases hv : exportV v with
+      | ok g =>
+        rw [hv] at h
+        cases hr : exportProps r with
+        | ok kvs' =>
+          rw [hr] at h
+          simp only [Res.bind, Res.map, Res.ok.injEq] at h; subst h
+          simp only [Spec.eraseKVs]
+          rw [export_structural E v hh.1 g hv, export_structural_props E r hh.2 kvs' hr]
+        | typeError => rw [hr] at h; cases h
+        | panic => rw [hr] at h; cases h
+        | err => rw [hr] at h; cases h
+      | typeError => rw [hv] at h; cases h
+      | panic => rw [hv] at h; cases h
+      | err => rw [hv] at h; cases h
+end
+
+
+
+def typesOf : GoVals → List (Option GT)
+  | .nil => []
+  | .cons g r => typeOf g :: typesOf r
+
+theorem scan_eq : (gs : GoVals) → (st : St) → scan st gs = scanT st (typesOf gs)
+  | .nil, st => rfl
+  | .cons g r, st => by simp only [scan, typesOf, scanT]; rw [scan_eq r]; rfl
+
+theorem allAssignable_eq (t : GT) : (gs : GoVals) → allAssignable t gs = (typesOf gs).all (· == some t)
+  | .nil => rfl
+  | .cons g r => by simp only [allAssignable, typesOf, List.all_cons]; rw [allAssignable_eq t r]
+
+/-- the Array typing rule: the slice built has element type `arrElemType` of the element types -/
+theorem finishArr_type (gs : GoVals) (g : GoVal) (h : finishArr gs = .ok g) :
+    typeOf g = some (.slice (arrElemType (typesOf gs))) := by
+  unfold finishArr at h
+  unfold arrElemType
+  rw [scan_eq] at h
+  dsimp only at h ⊢
+  split at h
+  · rename_i ht; rw [ht]; cases h; rfl
+  · rename_i t ht
+    rw [ht]
+    dsimp only
+    split at h
+    · rename_i hc; rw [if_pos hc]; cases h; rfl
+    · rename_i hc
+      rw [if_neg hc]
+      split at h
+      · cases h; rfl
+      · cases h
+
+theorem finishArr_panic (gs : GoVals) : finishArr gs = .panic ↔ arrClash (typesOf gs) = true := by
+  unfold finishArr arrClash
+  rw [scan_eq]
+  dsimp only
+  generalize scanT St.init (typesOf gs) = st
+  obtain ⟨state, sig, t⟩ := st
+  cases t with
+  | none => simp
+  | some t =>
+    dsimp only
+    rw [allAssignable_eq]
+    by_cases hc : state ≠ 1 ∨ sig.k = 20
+    · simp [hc]
+    · simp only [hc, if_false, decide_false, Bool.not_false, Bool.true_and]
+      cases hall : (typesOf gs).all (· == some t) <;> simp
+
+theorem finishArr_total (gs : GoVals) : finishArr gs ≠ .typeError ∧ finishArr gs ≠ .err := by
+  unfold finishArr
+  dsimp only
+  split
+  · simp
+  · split
+    · simp
+    · split <;> simp
+
+/-- neither a TypeError nor a plain error: `export` either returns or panics -/
+def Good {α} (r : Res α) : Prop := r ≠ .typeError ∧ r ≠ .err
+
+mutual
+/-- `export` characterised: (1) the dynamic type of the result is `expType` (the Array typing rule, exactly);
+    (2) it panics iff some Array inside has elements of equal Kind signature but different types (`clash`);
+    (3) it never fails in any other way. -/
+theorem export_char : (j : JS) →
+    (∀ g, exportV j = .ok g → typeOf g = expType j) ∧ (exportV j = .panic ↔ clash j = true) ∧ Good (exportV j)
+  | .prim v => by
+    cases v <;> simp [exportV, expType, clash, Good, typeOf, Sc.bt]
+  | .f32 x => by simp [exportV, expType, clash, Good, typeOf, Sc.bt]
+  | .goObj g' => by simp [exportV, expType, clash, Good]
+  | .arr es => by
+    have ih := export_char_elems es
+    simp only [exportV, expType, clash]
+    cases hR : exportElems es with
+    | ok gs =>
+      have hc : clashElems es = false := by
+        cases hce : clashElems es with
+        | false => rfl
+        | true => have := ih.2.1.mpr hce; rw [hR] at this; cases this
+      have ht := ih.1 gs hR
+      simp only [Res.bind, hc, Bool.false_or]
+      refine ⟨fun g hg => ?_, ?_, finishArr_total gs⟩
+      · rw [finishArr_type gs g hg, ht]
+      · rw [finishArr_panic, ht]
+    | panic =>
+      have hc : clashElems es = true := ih.2.1.mp hR
+      simp [Res.bind, hc, Good]
+    | typeError => exact absurd hR ih.2.2.1
+    | err => exact absurd hR ih.2.2.2
+  | .obj ps => by
+    have ih := export_char_props ps
+    simp only [exportV, expType, clash]
+    cases hR : exportProps ps with
+    | ok kvs =>
+      have hc : clashProps ps = false := by
+        cases hce : clashProps ps with
+        | false => rfl
+        | true => have := ih.1.mpr hce; rw [hR] at this; cases this
+      simp [Res.map, hc, Good, typeOf]
+    | panic =>
+      have hc : clashProps ps = true := ih.1.mp hR
+      simp [Res.map, hc, Good]
+    | typeError => exact absurd hR ih.2.1
+    | err => exact absurd hR ih.2.2
+theorem export_char_elems : (es : JSElems) →
+    (∀ gs, exportElems es = .ok gs → typesOf gs = expTypes es) ∧ (exportElems es = .panic ↔ clashElems es = true) ∧
+      Good (exportElems es)
+  | .nil => by simp [exportElems, expTypes, clashElems, Good, typesOf]
+  | .hole r => by
+    have ih := export_char_elems r
+    simpa [exportElems, expTypes, clashElems] using ih
+  | .cons v r => by
+    have ihv := export_char v
+    have ihr := export_char_elems r
+    simp only [exportElems, expTypes, clashElems]
+    cases hv : exportV v with
+    | ok g =>
+      have hcv : clash v = false := by
+        cases hce : clash v with
+        | false => rfl
+        | true => have := ihv.2.1.mpr hce; rw [hv] at this; cases this
+      cases hr : exportElems r with
+      | ok gs' =>
+        have hcr : clashElems r = false := by
+          cases hce : clashElems r with
+          | false => rfl
+          | true => have := ihr.2.1.mpr hce; rw [hr] at this; cases this
+        simp only [Res.bind, Res.map, hcv, hcr, Good]
+        refine ⟨fun gs hgs => ?_, by simp, by simp⟩
+        cases hgs
+        simp only [typesOf]
+        rw [ihv.1 g hv, ihr.1 gs' hr]
+      | panic =>
+        have hcr : clashElems r = true := ihr.2.1.mp hr
+        simp [Res.bind, Res.map, hcr, Good]
+      | typeError => exact absurd hr ihr.2.2.1
+      | err => exact absurd hr ihr.2.2.2
+    | panic =>
+      have hcv : clash v = true := ihv.2.1.mp hv
+      simp [Res.bind, hcv, Good]
+    | typeError => exact absurd hv ihv.2.2.1
+    | err => exact absurd hv ihv.2.2.2
+theorem export_char_props : (ps : JSProps) →
+    (exportProps ps = .panic ↔ clashProps ps = true) ∧ Good (exportProps ps)
+  | .nil => by simp [exportProps, clashProps, Good]
+  | .cons k v r => by
+    have ihv := export_char v
+    have ihr := export_char_props r
+    simp only [exportProps, clashProps]
+    by_cases hu : isUndef v = true
+    · simpa [hu] using ihr
+    · simp only [hu, if_false, Bool.false_eq_true, Bool.not_false, Bool.true_and]
+      cases hv : exportV v with
+      | ok g =>
+        have hcv : clash v = false := by
+          cases hce : clash v with
+          | false => rfl
+          | true => have := ihv.2.1.mpr hce; rw [hv] at this; cases this
+        cases hr : exportProps r with
+        | ok kvs' =>
+          have hcr : clashProps r = false := by
+            cases hce : clashProps r with
+            | false => rfl
+            | true => have := ihr.1.mpr hce; rw [hr] at this; cases this
+          simp [Res.bind, Res.map, hcv, hcr, Good]
+        | panic =>
+          have hcr : clashProps r = true := ihr.1.mp hr
+          simp [Res.bind, Res.map, hcr, Good]
+        | typeError => exact absurd hr ihr.2.1
+        | err => exact absurd hr ihr.2.2
+      | panic =>
+        have hcv : clash v = true := ihv.2.1.mp hv
+        simp [Res.bind, hcv, Good]
+      | typeError => exact absurd hv ihv.2.2.1
+      | err => exact absurd hv ihv.2.2.2
+end
+
+/-- the three parts of `export_char`, separately -/
+theorem export_typing (j : JS) (g : GoVal) (h : exportV j = .ok g) : typeOf g = expType j := (export_char j).1 g h
+theorem export_panic_iff_clash (j : JS) : exportV j = .panic ↔ clash j = true := (export_char j).2.1
+theorem export_total (j : JS) : (∃ g, exportV j = .ok g) ∨ exportV j = .panic := by
+  have h := (export_char j).2.2
+  cases hr : exportV j with
+  | ok g => exact .inl ⟨g, rfl⟩
+  | panic => exact .inr rfl
+  | typeError => exact absurd hr h.1
+  | err => exact absurd hr h.2
+
+
+
+theorem finishArr_val (gs : GoVals) (h : arrClash (typesOf gs) = false) :
+    finishArr gs = .ok (.slice (arrElemType (typesOf gs)) false gs) := by
+  cases hf : finishArr gs with
+  | ok g =>
+    obtain ⟨t, rfl⟩ := finishArr_ok gs g hf
+    have := finishArr_type gs _ hf
+    simp only [typeOf, Option.some.injEq, GT.slice.injEq] at this
+    rw [this]
+  | panic => rw [(finishArr_panic gs).mp hf] at h; cases h
+  | typeError => exact absurd hf (finishArr_total gs).1
+  | err => exact absurd hf (finishArr_total gs).2
+
+mutual
+/-- Outside the three JavaScript->Go regions (hole, typed Array, type clash) `export` returns exactly the
+    documented shape: []interface{} for Arrays, map[string]interface{} for Objects, at every depth. -/
+theorem export_doc : (j : JS) → hasHole j = false → typedArr j = false → clash j = false →
+    exportV j = .ok (Spec.docOf j)
+  | .prim v, _, _, _ => by cases v <;> rfl
+  | .f32 x, _, _, _ => rfl
+  | .goObj g, _, _, _ => rfl
+  | .arr es, hh, ht, hc => by
+    simp only [hasHole] at hh
+    simp only [typedArr, Bool.or_eq_false_iff, bne_eq_false_iff_eq] at ht
+    simp only [clash, Bool.or_eq_false_iff] at hc
+    have he := export_doc_elems es hh ht.1 hc.1
+    have hts := (export_char_elems es).1 _ he
+    simp only [exportV, he, Res.bind, Spec.docOf]
+    rw [finishArr_val _ (by rw [hts]; exact hc.2), hts, ht.2]
+  | .obj ps, hh, ht, hc => by
+    simp only [hasHole] at hh
+    simp only [typedArr] at ht
+    simp only [clash] at hc
+    simp only [exportV, export_doc_props ps hh ht hc, Res.map, Spec.docOf]
+theorem export_doc_elems : (es : JSElems) → holeElems es = false → typedElems es = false → clashElems es = false →
+    exportElems es = .ok (Spec.docOfElems es)
+  | .nil, _, _, _ => rfl
+  | .hole r, hh, _, _ => by simp [holeElems] at hh
+  | .cons v r, hh, ht, hc => by
+    simp only [holeElems, Bool.or_eq_false_iff] at hh
+    simp only [typedElems, Bool.or_eq_false_iff] at ht
+    simp only [clashElems, Bool.or_eq_false_iff] at hc
+    simp only [exportElems, export_doc v hh.1 ht.1 hc.1, export_doc_elems r hh.2 ht.2 hc.2, Res.bind, Res.map, Spec.docOfElems]
+theorem export_doc_props : (ps : JSProps) → holeProps ps = false → typedProps ps = false → clashProps ps = false →
+    exportProps ps = .ok (Spec.docOfProps ps)
+  | .nil, _, _, _ => rfl
+  | .cons k v r, hh, ht, hc => by
+    simp only [holeProps, Bool.or_eq_false_iff] at hh
+    simp only [typedProps, Bool.or_eq_false_iff] at ht
+    simp only [clashProps, Bool.or_eq_false_iff] at hc
+    simp only [exportProps, Spec.docOfProps]
+    by_cases hu : isUndef v = true
+    · simp only [hu, if_true]; exact export_doc_props r hh.2 ht.2 hc.2
+    · simp only [hu, Bool.not_false, Bool.true_and, Bool.false_eq_true, if_false] at ht hc ⊢
+      simp only [export_doc v hh.1 ht.1 hc.1, export_doc_props r hh.2 ht.2 hc.2, Res.bind, Res.map]
+end
+
+/-! ## Non-vacuity and deviation witnesses (kernel-checked; each is replayed on the real code by the harness) -/
+
+def env0 : Env := { pn := fun _ => .nan }
+
+-- hypotheses are satisfiable on non-trivial instances
+example : hasHole (.arr (.cons (.prim (.int .i64 1)) (.cons (.obj (.cons [97] (.prim (.str [120])) .nil)) .nil))) = false := by decide
+example : (toValue (.ptr (.ptr (.sc true (.int .u8 200))))) = .ok (.prim (.int .u8 200)) := by decide
+example : TargetIntOK (.ptr (.sc false (.int .u64 (2^53 - 1)))) := by simp [TargetIntOK, Spec.target, IntOK]
+
+-- Part A
+example : roundtrip (.sc true (.int .int 5)) ≠ Spec.roundtrip (.sc true (.int .int 5)) := by decide              -- named_type_erased
+example : roundtrip (.ptr (.sc false (.int .int 7))) ≠ Spec.roundtrip (.ptr (.sc false (.int .int 7))) := by decide  -- pointer_deref
+example : roundtrip (.nilptr (.sc false (.num .int))) ≠ Spec.roundtrip (.nilptr (.sc false (.num .int))) := by decide
+example : roundtrip (.sc false (.f32 one)) ≠ Spec.roundtrip (.sc false (.f32 one)) := by decide                     -- float32_widened
+example : roundtrip (.ptr (.slice .iface false .nil)) = .typeError := by decide                                     -- pointer_to_container_rejected
+example : roundtrip (.ptr (.ptr (.strct 0 .nil))) = .typeError := by decide
+example : (toValue (.sc true (.f32 one))).bind (valFloat env0) = .panic ∧ Spec.toFloat env0 (.sc true (.f32 one)) = .ok one := by decide  -- float32_payload_panic
+example : (toValue (.ptr (.sc false (.f32 one)))).bind (valInteger env0) = .panic := by decide
+example : (toValue (.sc true (.f32 .nan))).bind valBool = .ok true ∧ Spec.toBoolean (.sc true (.f32 .nan)) = .ok false := by decide   -- float32_payload_nan_truthy
+example : (toValue (.sc false (.f64 .nan))).bind valMarshal = .err ∧ Spec.marshal (.sc false (.f64 .nan)) = .ok .null := by decide    -- marshal_nonfinite
+example : (toValue (.sc false (.f64 negZero))).bind valMarshal = .ok (.num negZero) ∧
+    Spec.marshal (.sc false (.f64 negZero)) = .ok (.num zero) := by decide                                          -- marshal_negzero
+
+example : (toValue (.sc false (.int .u64 (2^53 + 1)))).bind (valInteger env0) = .ok (2^53) ∧
+    Spec.toInteger env0 (.sc false (.int .u64 (2^53 + 1))) = .ok (2^53 + 1) := by decide                             -- toInteger_uint_inexact
+
+-- Part B
+def wHole : JS := .arr (.cons (.prim (.int .i64 1)) (.hole (.cons (.prim (.int .i64 3)) .nil)))
+example : hasHole wHole = true ∧ (exportV wHole).map (Spec.erase env0) ≠ Spec.exportTree env0 wHole := by decide     -- export_array_hole
+def wTyped : JS := .arr (.cons (.prim (.int .i64 1)) (.cons (.prim (.int .i64 2)) .nil))
+example : typedArr wTyped = true ∧ exportV wTyped ≠ Spec.exportDoc wTyped := by decide                              -- export_array_typed
+/-- [[[1]],[["a"]]] : both elements have Kind signature (Slice, -, Slice) but types [][]int64 and [][]string -/
+def wClash : JS :=
+  .arr (.cons (.arr (.cons (.arr (.cons (.prim (.int .i64 1)) .nil)) .nil))
+       (.cons (.arr (.cons (.arr (.cons (.prim (.str [97])) .nil)) .nil)) .nil))
+example : clash wClash = true ∧ exportV wClash = .panic := by decide                                                -- export_type_clash_panic
+
+
 end OttoVerif.C15.Thm
